@@ -5,7 +5,7 @@ for p in glob.glob("/verif/known_findings/*.json"):
     j = json.load(open(p)); ch = False
     for f in j["findings"]:
         if f.get("status") == "fixed" and not f.get("commit"):
-            m = re.search(r"(C\d\d-[\w.-]+?\.patch)", f.get("what", "") + " " + str(f.get("patch", "")))
+            m = re.search(r"(C\d\d-[\w.-]+?\.patch)", " ".join(str(v) for v in f.values()))
             if m and m.group(1) in ap:
                 f["commit"] = ap[m.group(1)]; ch = True
                 if not f["what"].startswith("fixed:"):
